@@ -194,6 +194,46 @@ fn vec_rep(seed: u64, share: usize, st: &mut RepStats) {
     core::hint::black_box((&a, &b));
 }
 
+/// with_capacity(large) -> a few bytes written -> shrunk (shrink_to_fit / into_boxed_slice / shrink_to) -> kept
+fn vec_shrink_rep(seed: u64, share: usize, st: &mut RepStats) -> Vec<Vec<u8>> {
+    let mut r = Prng::new(seed);
+    let n = (600 / share).max(20);
+    let mut keep: Vec<Vec<u8>> = Vec::with_capacity(n);
+    let mut live = n * core::mem::size_of::<Vec<u8>>();
+    for i in 0..n {
+        let cap = (64 << 10) + r.below((1 << 20) - (64 << 10)) as usize;
+        let small = 8 + cap % 389;
+        let mut v: Vec<u8> = if i % 3 == 1 { Vec::with_capacity(4096) } else { Vec::with_capacity(cap) };
+        v.resize(small, 0x5A);
+        if i % 3 == 1 {
+            v.reserve_exact(cap - small); // grow, then shrink and keep
+        }
+        st.peak_live = st.peak_live.max(live + v.capacity());
+        let v = match i % 4 {
+            0 => {
+                v.shrink_to_fit();
+                v
+            }
+            1 => v.into_boxed_slice().into_vec(),
+            2 => {
+                v.shrink_to(small + 7);
+                v
+            }
+            _ => {
+                v.shrink_to(cap / 2);
+                v.shrink_to_fit();
+                v
+            }
+        };
+        live += v.capacity();
+        st.calls += 3;
+        st.churned += cap;
+        keep.push(v);
+    }
+    st.peak_live = st.peak_live.max(live);
+    keep
+}
+
 struct Slots(Vec<Slot>);
 unsafe impl Send for Slots {}
 
@@ -225,7 +265,38 @@ pub fn main() -> i32 {
     for rep in 0..reps {
         let mut st = RepStats::default();
         let order_seed = seed ^ rep.wrapping_mul(0x9E37_79B9);
-        if shape == Shape::VecAligned {
+        if shape == Shape::VecShrink {
+            // the kept vectors are handed to main, so that the sample is taken with all of them alive and all threads joined
+            let mut kept: Vec<Vec<Vec<u8>>> = Vec::with_capacity(threads);
+            if threads == 1 {
+                kept.push(vec_shrink_rep(seed, 1, &mut st));
+            } else {
+                let mut handles = Vec::with_capacity(threads);
+                for t in 0..threads {
+                    match tiny_std::thread::spawn(move || {
+                        let mut st = RepStats::default();
+                        let k = vec_shrink_rep(seed.wrapping_add(t as u64), threads, &mut st);
+                        (st, k)
+                    }) {
+                        Ok(h) => handles.push(h),
+                        Err(_) => st.failed += 1,
+                    }
+                }
+                for h in handles {
+                    match h.join() {
+                        Some((s, k)) => {
+                            st.peak_live += s.peak_live;
+                            st.churned += s.churned;
+                            st.calls += s.calls;
+                            kept.push(k);
+                        }
+                        None => st.failed += 1,
+                    }
+                }
+            }
+            print_sample(0);
+            drop(kept);
+        } else if shape == Shape::VecAligned {
             if threads == 1 {
                 vec_rep(seed, 1, &mut st);
             } else {
@@ -256,6 +327,9 @@ pub fn main() -> i32 {
             let mut slots: Vec<Slot> = Vec::new();
             unsafe {
                 rep_allocate(&mut g, shape, &plan, &mut slots, &mut st);
+                if samples_mid(shape) {
+                    print_sample(0);
+                }
                 rep_free(&mut g, order, order_seed, &mut slots, &mut st);
             }
         } else {
@@ -294,6 +368,9 @@ pub fn main() -> i32 {
                 }
             }
             st.peak_live = peak;
+            if samples_mid(shape) {
+                print_sample(0); // hand-off mode: every thread joined, every kept block alive
+            }
             unsafe {
                 rep_free(&mut g, order, order_seed, &mut all, &mut st);
             }
